@@ -248,6 +248,26 @@ impl<'a> HKeys<'a> {
     { unimplemented!() }
 }
 pub struct Keys<'a> { pub inner: HKeys<'a> }
+// A-http-33: HeaderMap::keys yields every name once (hmap_keys: some order of the domain); iter_mut starts with every entry
+// like iter; clear empties the map; keys_len / capacity / reserve change nothing observable here
+pub uninterp spec fn hmap_keys(m: HMap) -> Seq<Seq<char>>;
+pub broadcast axiom fn axiom_hmap_keys(m: HMap, k: Seq<char>) ensures #[trigger] hmap_keys(m).contains(k) <==> m.contains_key(k);
+impl HeaderMap {
+    #[verifier::external_body] pub fn keys(&self) -> (r: HKeys<'_>) ensures r.rest@ == hmap_keys(self@) { unimplemented!() }
+    #[verifier::external_body] pub fn iter_mut(&mut self) -> (r: HIterMut<'_>) ensures r.rest@ == hmap_entries(old(self)@) { unimplemented!() }
+    #[verifier::external_body] pub fn clear(&mut self) ensures final(self)@ == Map::<Seq<char>, Seq<Seq<u8>>>::empty() { unimplemented!() }
+    #[verifier::external_body] pub fn keys_len(&self) -> (r: usize) { unimplemented!() }
+    #[verifier::external_body] pub fn reserve(&mut self, additional: usize) ensures final(self)@ == old(self)@ { unimplemented!() }
+}
+pub mod as_encoding_agnostic_metadata_key {
+    use crate::*;
+    pub trait Sealed {
+        spec fn key_name(&self) -> Seq<char>;
+        fn contains_key(&self, map: &MetadataMap) -> (r: bool) ensures r == map.headers@.contains_key(self.key_name());
+    }
+    pub trait AsEncodingAgnosticMetadataKey: Sealed {}
+}
+pub use as_encoding_agnostic_metadata_key::AsEncodingAgnosticMetadataKey;
 '''
 
 
@@ -460,7 +480,26 @@ def build():
                       Clause('I4_wrong_kind_is_a_no_op', '!key.key_ok() ==> final(self).headers@ == old(self).headers@ && r is None'),
                       Clause('I5_an_entry_of_the_other_side_is_never_removed', '!<%s as ValueEncoding>::valid_key(key.key_name()) ==> final(self).headers@ == old(self).headers@ && r is None' % enc)])
     u.fn(MP, 'merge', within='impl MetadataMap', ensures=[Clause('M1_union_other_wins', 'final(self).headers@ == old(self).headers@.union_prefer_right(other.headers@)', ['C08', 'C02'])])
+    u.fn(MP, 'iter', within='impl MetadataMap', nth=0, display='MetadataMap::iter', ensures=[Clause('M2_the_iterator_starts_with_every_entry_of_the_map', 'r.inner.rest@ == hmap_entries(self.headers@)')])
+    u.fn(MP, 'values', within='impl MetadataMap', nth=0, display='MetadataMap::values', ensures=[Clause('M3_the_iterator_starts_with_every_entry_of_the_map', 'r.inner.rest@ == hmap_entries(self.headers@)')])
+    u.fn(MP, 'keys', within='impl MetadataMap', nth=0, display='MetadataMap::keys', ensures=[Clause('M4_the_iterator_starts_with_every_name_of_the_map', 'r.inner.rest@ == hmap_keys(self.headers@)')])
+    u.fn(MP, 'iter_mut', within='impl MetadataMap', nth=0, display='MetadataMap::iter_mut', ensures=[Clause('M5_the_iterator_starts_with_every_entry_of_the_map', 'r.inner.rest@ == hmap_entries(old(self).headers@)')])
+    u.fn(MP, 'values_mut', within='impl MetadataMap', nth=0, display='MetadataMap::values_mut', ensures=[Clause('M6_the_iterator_starts_with_every_entry_of_the_map', 'r.inner.rest@ == hmap_entries(old(self).headers@)')])
+    u.fn(MP, 'clear', within='impl MetadataMap', nth=0, display='MetadataMap::clear', ensures=[Clause('M7_nothing_is_left', 'final(self).headers@ == Map::<Seq<char>, Seq<Seq<u8>>>::empty()')])
+    u.fn(MP, 'is_empty', within='impl MetadataMap', nth=0, display='MetadataMap::is_empty', ensures=[Clause('M8_empty_exactly_when_there_is_no_name', 'r == (self.headers@.dom() =~= Set::<Seq<char>>::empty())')])
+    u.fn(MP, 'keys_len', within='impl MetadataMap', nth=0, display='MetadataMap::keys_len')
+    u.fn(MP, 'reserve', within='impl MetadataMap', nth=0, display='MetadataMap::reserve', ensures=[Clause('M9_reserving_changes_no_entry', 'final(self).headers@ == old(self).headers@')])
+    u.fn(MP, 'contains_key', within='impl MetadataMap', nth=0, display='MetadataMap::contains_key',
+         ensures=[Clause('M10_true_exactly_when_an_entry_is_stored_under_the_name_the_key_denotes', 'r == self.headers@.contains_key(key.key_name())')])
     u.close('}')
+    for ty, hdr, kn in (('MetadataKey<VE>', 'impl<VE: ValueEncoding> Sealed for MetadataKey<VE>', 'self.inner@'), ("&'k MetadataKey<VE>", 'impl<VE: ValueEncoding> Sealed for &MetadataKey<VE>', 'self.inner@'),
+                        ('&str', 'impl Sealed for &str', 'lower(self@)'), ('String', 'impl Sealed for String', 'lower(self@)'), ("&'k String", 'impl Sealed for &String', 'lower(self@)')):
+        gen = ('<' + ', '.join(x for x in (("'k" if "'k" in ty else ''), ('VE: ValueEncoding' if 'VE' in ty else '')) if x) + '>') if ("'k" in ty or 'VE' in ty) else ''
+        h = 'impl%s as_encoding_agnostic_metadata_key::Sealed for %s {' % (gen, ty)
+        u._emit(h + '\n    open spec fn key_name(&self) -> Seq<char> { %s }' % kn); u._open_header = h
+        # the agnostic impls are the LAST `contains_key` of that header in map.rs: pick within the agnostic module
+        u.fn(MP, 'contains_key', within=hdr, nth={'impl<VE: ValueEncoding> Sealed for MetadataKey<VE>': 0}.get(hdr, 0), display='as_encoding_agnostic_metadata_key::Sealed for %s::contains_key' % ty.replace("'k ", ''))
+        u.close('}')
 
     tyed = [lambda t: t.sub_code('R12', r"http::header::GetAll<'a, http::header::HeaderValue>", "HGetAll<'a>"),
             lambda t: t.sub_code('R12', r"http::header::ValueIter<'a, http::header::HeaderValue>", "HValueIter<'a>"),
